@@ -151,12 +151,13 @@ func vp_C05_redact() {
 		vpAssume(k[i] < 0x80 && ck[i] < 0x80)
 	}
 
+	depth := int64(vpNondetBits("depth", 20)) // includes 0: a kept key must survive whatever its value
 	content := vpJObj("body", "hello", ck, cval)
 	cvalDoc := vpJVal(cval)
 	ev := vpJObj(
 		"type", typ, "room_id", vpRoom, "sender", vpAlice, "state_key", "", "content", content,
 		"hashes", vpJObj("sha256", "aGFzaA"), "signatures", vpJObj("x", vpJObj("ed25519:1", "c2ln")),
-		"depth", int64(7), "origin_server_ts", int64(1234), "unsigned", vpJObj("age", int64(1)), "redacts", "$r:x",
+		"depth", depth, "origin_server_ts", int64(1234), "unsigned", vpJObj("age", int64(1)), "redacts", "$r:x",
 		k, kval)
 
 	// KF-C05-1: encoding/json matches member names case-insensitively, so a member whose name differs from a kept
@@ -190,7 +191,7 @@ func vp_C05_redact() {
 	vpAssertKF("type-unchanged", bytes.Equal(out["type"], vpJVal(typ)), "KF-C05-1", foldTop)
 	vpAssertKF("sender-unchanged", bytes.Equal(out["sender"], vpJVal(vpAlice)), "KF-C05-1", foldTop)
 	vpAssertKF("room-unchanged", bytes.Equal(out["room_id"], vpJVal(vpRoom)), "KF-C05-1", foldTop)
-	vpAssertKF("depth-unchanged", bytes.Equal(out["depth"], vpJVal(int64(7))), "KF-C05-1", foldTop)
+	vpAssertKF("depth-unchanged", bytes.Equal(out["depth"], vpJVal(depth)), "KF-C05-1", foldTop)
 	// the extra top-level key
 	kv, kPresent := out[k]
 	vpAssertKF("extra-top-key", kPresent == vpKeepTop(algo, k), "KF-C05-1", foldTop)
